@@ -5,11 +5,11 @@
 (* Each finished document is printed as one JSON line (tag @@) for the       *)
 (* replay into the implementation.  Invariants check the reference itself.   *)
 EXTENDS Doc, Json
-CONSTANTS Sym, MaxSym, MaxDepth, Free
+CONSTANTS Sym, MaxSym, MaxDepth, Free, Mode
 VARIABLES doc, st, phase, nsym
 vars == <<doc, st, phase, nsym>>
 
-Init == doc = <<>> /\ st = St0 /\ phase = "gen" /\ nsym = 0
+Init == doc = <<>> /\ st = [St0 EXCEPT !.mode = Mode] /\ phase = "gen" /\ nsym = 0
 Add(s) == /\ phase = "gen" /\ nsym < MaxSym
           /\ (Free \/ AllowedSeq(st, Expand(s)))
           /\ (s \in OpenSyms \cup BeginSyms \cup {"skb"} => Len(st.ctx) < MaxDepth)
@@ -32,7 +32,7 @@ AnchorsInSrc == \A f \in 1..Len(st.flows) : \A i \in 1..Len(st.flows[f]) :
 AnchorsOrdered == "umacro" \in st.feat \/ \A f \in 1..Len(st.flows) : \A i, j \in 1..Len(st.flows[f]) :
     (i < j /\ st.flows[f][i].t = "c" /\ st.flows[f][j].t = "c") => st.flows[f][i].lo < st.flows[f][j].lo
 \* a finished document has a flattened expectation that keeps every anchor
-FinalKeeps == phase = "done" =>
+FinalKeeps == (phase = "done" /\ Mode = "normal") =>
     LET fin == Final(st) IN
     Len(SelectSeq(fin.items, LAMBDA e : e.t = "c")) =
        Len(SelectSeq(st.flows[1], LAMBDA e : e.t = "c")) +
